@@ -189,10 +189,7 @@ def summaryMarshalJSON (s : SummaryResult) : Bytes :=
 
 /-! ### thin wrappers that C10_COVERAGE.md listed as "not modelled separately" -/
 
-/-- deleted.go:ScanAllDeletedRows — `withDefaults`, then DumpDataDir; the error is passed through (`none`) -/
-def scanAllDeletedRows (rr : RowReader) (π : MapOrder TableInfo) (fs : Bytes → Option Bytes) (opts : Options) :
-    M (Option DumpResult) :=
-  dumpDataDir rr π fs opts
+-- ScanAllDeletedRows: see Model/DeletedScan.lean (the tree after fix rows/07).
 
 /-- passwords.go:ExtractPasswords — os.ReadFile(global/1260), error passed through (`none`), else ParsePGAuthID -/
 def extractPasswords (fs : Bytes → Option Bytes) : M (Option (List AuthInfo)) :=
